@@ -965,7 +965,11 @@ static bool p_reserved_word(Work &W, Env &E, Plan &P) {
     std::vector<int> le; for (size_t i = 0; i < W.R.t.size(); i++) { const Tok &t = W.R.t[i]; if ((t.ctx == C_LIST && (t.kind == T_VAL || t.kind == T_OPEN)) || (t.kind == T_CLOSE && t.br == ']')) le.push_back((int) i); }
     std::vector<int> te; for (size_t i = 0; i < W.R.t.size(); i++) { const Tok &t = W.R.t[i]; if ((t.ctx == C_TABLE && t.keylen > 0) || (t.kind == T_CLOSE && t.br == '}')) te.push_back((int) i); }
     int m = *g::range(0, 9); int a; bool inner = false;
-    if (m < 2 && !lb.empty()) { a = pick(lb); inner = true; } else if (m < 4 && !le.empty()) { a = pick(le); inner = true; } else if (m < 5 && !te.empty()) { a = pick(te); inner = true; P.pos.push_back("between-entries"); } else a = pick(at);
+    if (m < 2 && !lb.empty()) { a = pick(lb); inner = true; } else if (m < 4 && !le.empty()) { a = pick(le); inner = true; } else if (m < 5 && !te.empty()) { a = pick(te); inner = true; P.pos.push_back("between-entries"); }
+    else if (m < 6) {   // the table says the word is dropped wherever it stands: also between a data name and its value
+        std::vector<int> nv; for (size_t i = 0; i < W.R.t.size(); i++) if (W.R.t[i].kind == T_NAME) nv.push_back((int) i + 1);
+        if (nv.empty()) a = pick(at); else { a = pick(nv); inner = true; P.pos.push_back("between-name-and-value"); }
+    } else a = pick(at);
     const char *w = *rc::gen::element<const char *>("data_", "stop_", "global_");
     insert_toks(P.toks, a, {raw(randcase8(w, (uint32_t) *g::range(0, 127)))});
     P.first = {CIF_RESERVED_WORD}; P.lo_tok = a; P.hi_tok = a + 1;
